@@ -52,6 +52,10 @@ class LDMMaintenanceThread(LDMMaintenance):
         with self.data_containers_lock:
             super().del_provider_data(data_object)
 
+    def del_provider_data_by_id(self, data_object_id: int) -> bool:
+        with self.data_containers_lock:
+            return super().del_provider_data_by_id(data_object_id)
+
     def get_all_data_containers(self) -> tuple[dict, ...]:
         with self.data_containers_lock:
             data_containers = super().get_all_data_containers()
